@@ -279,11 +279,11 @@ func equivalent(a, b *nfa, alphabet []string) (bool, []string) {
 	return true, nil
 }
 
-func graphNFA(start *fsm.State) (*nfa, bool) {
+func graphNFA(start *fsm.State) (*nfa, string) {
 	a := newNFA()
 	ids := map[*fsm.State]int{}
 	var visit func(s *fsm.State) int
-	noShortcut := true
+	problem := ""
 	visit = func(s *fsm.State) int {
 		if id, ok := ids[s]; ok {
 			return id
@@ -293,9 +293,13 @@ func graphNFA(start *fsm.State) (*nfa, bool) {
 		if s.Terminal {
 			a.accept[id] = true
 		}
-		for _, tr := range s.Transitions {
+		for i, tr := range s.Transitions {
 			if matcher.IsShortcut(tr.Matcher) {
-				noShortcut = false
+				problem = "a shortcut transition survives Prepare"
+			}
+			// apply tries the transitions in order: Prepare leaves them sorted by the matchers' priority
+			if i > 0 && s.Transitions[i-1].Matcher.Priority() > tr.Matcher.Priority() && problem == "" {
+				problem = fmt.Sprintf("the transitions of a state are not in priority order after Prepare (%v before %v)", s.Transitions[i-1].Matcher, tr.Matcher)
 			}
 			t := visit(tr.Next)
 			a.edge(id, fmt.Sprint(tr.Matcher), t)
@@ -303,7 +307,7 @@ func graphNFA(start *fsm.State) (*nfa, bool) {
 		return id
 	}
 	a.start = visit(start)
-	return a, noShortcut
+	return a, problem
 }
 
 // ---- the enumeration -------------------------------------------------------------------------------------------------------
@@ -382,9 +386,9 @@ func TestO4GraphShape(t *testing.T) {
 			}
 			if realOK {
 				compiled++
-				ga, noShortcut := graphNFA(g)
-				if !noShortcut {
-					fail = map[string]string{"spec": spec, "problem": "a shortcut transition survives Prepare"}
+				ga, problem := graphNFA(g)
+				if problem != "" {
+					fail = map[string]string{"spec": spec, "problem": problem}
 					return
 				}
 				ra := newNFA()
